@@ -173,3 +173,10 @@ def rules(t, *a, **kw):
     out = _rules_C17_w5d(t, *a, **kw)
     out.append(W5.request_fields_prov(t, "C17.i"))
     return out
+
+_rules_C17_w7 = rules
+def rules(t, *a, **kw):
+    import rules.shared as shared
+    out = _rules_C17_w7(t, *a, **kw)
+    shared.share(t, out, "C17.j", "a connection request is answered only after its sealed token was opened with the request's own public fields as associated data (a retry is not trusted because its MAC bytes look familiar)", "C05", ("C05.a4",))
+    return out
